@@ -103,12 +103,12 @@ def run(tier, seed, jobs):
                   "a RETR of a message an IMAP session has expunged meanwhile may answer -ERR but may never deliver another message",
                   "commands strictly sequential in the H part; the S part races QUIT (with one marked message) against EXPUNGE / UID FETCH / MOVE / APPEND "
                   "with <=2 (thorough 3) schedule deviations"],
-                 time_budget=60 if tier == "quick" else 1500)
+                 time_budget=60 if tier == "quick" else 900)
     from ..explore import sched
 
     per = []
     for sc in s_scenarios():
-        r = sched.explore(sc, 2 if tier == "quick" else 3, jobs, seed, max_exec=30000 if tier == "quick" else 400000)
+        r = sched.explore(sc, 2 if tier == "quick" else 3, jobs, seed, max_exec=30000 if tier == "quick" else 80000)
         for f in r["failures"]:
             f.rule = f.rule.replace("C10.", "C20.")
         res.failures.extend(r["failures"])
